@@ -2,11 +2,27 @@
 (* Trace validation for C01 (and the ledger side of C06/C15): every operation the driver ran     *)
 (* against the real SQLite wallet must be a step of Wallet.tla, and the projection of the real   *)
 (* database / balance API logged after the call must equal the specification's state.            *)
-EXTENDS Wallet, Json, IOUtils
+EXTENDS Wallet, Json, IOUtils, TreeOps
 
-VARIABLE l
+CONSTANT Budget      \* shardtree checkpoint budget of the wallet (PRUNING_DEPTH = 100)
+
+VARIABLES l,
+          grid, gbase,   \* anchor-retention grid of this wallet (0: policy inactive) and the absolute height of height 0
+          cmAt,          \* height -> << commitments the block adds to the Sapling, Orchard, Ironwood tree >>
+          covered,       \* retention-grid heights that lay inside a successfully scanned batch and were not rewound since
+          lostOK,        \* << h, pool >>: boundaries the *known finding* C06-retained-boundary-lost explains (see below)
+          mck, mret      \* Layer B (TreeOps, as on the pinned tree): the checkpoint ids / retained registrations the
+                         \* transcribed update_tree predicts per pool; used only to recognise the known finding
 Rec == ndJsonDeserialize(IOEnv.TRACE)
-tvars == << wvars, l >>
+cvars == << grid, gbase, cmAt, covered, lostOK, mck, mret >>
+tvars == << wvars, l, cvars >>
+
+\* Known findings (DESIGN C06, known_findings.json).  The check enables an excuse only while the finding
+\* is listed as open; each use is printed so that the check can report it as KNOWN-FINDING.
+KnownStale(what)  == IOEnv.KF_STALE = "1" /\ PrintT(<< "KNOWN", "C06-stale-frontier-after-rewind", what >>)
+KnownRetain(h, i) == IOEnv.KF_RETAIN = "1" /\ PrintT(<< "KNOWN", "C06-retained-boundary-lost", h, i >>)
+EmptyCk == [i \in 1..3 |-> {}]
+Retains(h) == grid > 0 /\ h >= 1 /\ (gbase + h) % grid = 0
 
 IsEvent(e) == l <= Len(Rec) /\ Rec[l].a = e /\ l' = l + 1
 
@@ -47,13 +63,14 @@ QueueOK(q, sc, tp) ==
 \* In a *tainted* history (a rewind went below a frontier an earlier scan inserted) wrong roots are
 \* the known finding of DESIGN C06 and are accepted here (the check reports them as KNOWN-FINDING).
 Pools == << "S", "O", "I" >>
-VerdictOK(v, tn) == v \in {"ok", "none", "err"} \/ (tn /\ v = "wrong")
-TreesOK(tr, sc, tn) ==
-    /\ LET cs == [i \in 1..3 |-> SeqToSet(tr[Pools[i]].ck)]                          \* AlignedCheckpoints:
-           ne == { i \in 1..3 : cs[i] # {} }                                        \* above the newest of the pools' oldest
-       IN  ne # {} => /\ ne = 1..3                                                  \* checkpoints (pruning of the oldest ones lags
-                      /\ LET lo == Max({ Min(cs[i]) : i \in 1..3 })                  \* per pool) all pools hold the same heights
-                         IN  \A i, j \in 1..3 : { h \in cs[i] : h >= lo } = { h \in cs[j] : h >= lo }
+VerdictOK(v, tn) == v \in {"ok", "none", "err"} \/ (tn /\ v = "wrong" /\ KnownStale("root"))
+TreesOK(tr, sc, tn, cov, lost) ==
+    /\ (IOEnv.EXPLAIN = "2" /\ \E i \in 1..3 : SeqToSet(tr[Pools[i]].ck) # mck'[i]) =>
+          PrintT(<< "DRIFT", l, [i \in 1..3 |-> << SeqToSet(tr[Pools[i]].ck) \ mck'[i], mck'[i] \ SeqToSet(tr[Pools[i]].ck) >>] >>)
+    /\ LET cs == [i \in 1..3 |-> SeqToSet(tr[Pools[i]].ck)]                 \* AlignedCheckpoints: a height checkpointed
+           un == [i \in 1..3 |-> cs[i] \ SeqToSet(tr[Pools[i]].ret)]        \* in one pool and not in another lies below
+       IN  \A i, j \in 1..3 : \A h \in cs[i] \ cs[j] : un[j] = {} \/ h < Min(un[j])   \* the other pool's pruning horizon (its
+                                                                                 \* oldest ordinary, unretained checkpoint)
     /\ LET mx == IF sc = {} THEN -1 ELSE Max(sc)
        IN  \A i \in 1..3 :
              LET t == tr[Pools[i]]
@@ -62,6 +79,7 @@ TreesOK(tr, sc, tn) ==
                  /\ \A j \in DOMAIN t.wit : VerdictOK(t.wit[j][3], tn) /\ t.wit[j][4] = "pos-ok"      \* WitnessLaw
                  /\ \A h \in cks : h <= mx                           \* no checkpoint above everything scanned
                  /\ \A j \in DOMAIN t.ret : t.ret[j] \in cks \/ t.ret[j] > mx
+                 /\ \A h \in cov : h \in cks \/ (<< h, i >> \in lost /\ KnownRetain(h, i))    \* RetainedBoundaries
 
 PostAgrees(post) ==
     \/ ~post.chk
@@ -75,7 +93,7 @@ PostAgrees(post) ==
                   /\ post.bal.S = << LedgerP("S"), LedgerDustP("S") >>
                   /\ post.bal.O = << LedgerP("O"), LedgerDustP("O") >>
                   /\ post.bal.I = << LedgerP("I"), LedgerDustP("I") >>
-       /\ (IOEnv.CHECK_TREES = "1") => TreesOK(post.trees, scanned', taint')
+       /\ (IOEnv.CHECK_TREES = "1") => TreesOK(post.trees, scanned', taint', covered', lostOK')
 
 \* EXPLAIN=1 (debugging aid): a disagreeing projection is printed and the trace continues
 PostOK(post) == \/ PostAgrees(post)
@@ -88,20 +106,43 @@ PostOK(post) == \/ PostAgrees(post)
 TReset == /\ IsEvent("reset")
           /\ chain' = << >> /\ top' = 0 /\ scanned' = {} /\ txs' = << >> /\ known' = {}
           /\ ninfo' = << >> /\ links' = {} /\ tip' = -1 /\ maxFrom' = 0 /\ taint' = FALSE
+          /\ grid' = Rec[l].grid /\ gbase' = Rec[l].gbase /\ cmAt' = << >> /\ covered' = {} /\ lostOK' = {}
+          /\ mck' = EmptyCk /\ mret' = EmptyCk
           /\ PostOK(Rec[l].post)
 
 TBlock == /\ IsEvent("block")
           /\ Block(Rec[l].h, Rec[l].b, Rec[l].txs)
+          /\ cmAt' = [x \in 1..Rec[l].h |-> IF x = Rec[l].h THEN Rec[l].cm ELSE cmAt[x]]
+          /\ UNCHANGED << grid, gbase, covered, lostOK, mck, mret >>
           /\ PostOK(Rec[l].post)
 
 TTip == /\ IsEvent("tip")
         /\ Rec[l].res = "ok"
         /\ UpdateTip(Rec[l].h)
+        /\ UNCHANGED cvars
         /\ PostOK(Rec[l].post)
 
+\* Known finding C06-retained-boundary-lost (found by TLC on CommitmentTree.tla, confirmed on the real
+\* wallet): update_tree skips an ensured checkpoint that lies at or below the pool's oldest checkpoint, so
+\* the retained boundary of a pool without a commitment in the boundary block is lost when more than the
+\* checkpoint budget follows it in the batch, or when the batch lies below the pool's checkpoints.  A lost
+\* boundary is excused exactly when the transcription of the pinned update_tree (TreeOps) loses it too.
 TScan == /\ IsEvent("scan")
-         /\ \/ Rec[l].res = "ok" /\ Scan(Rec[l].from, Rec[l].n)
-            \/ Rec[l].res = "err" /\ taint /\ UNCHANGED wvars     \* only the C06 known finding may refuse a scan
+         /\ \/ /\ Rec[l].res = "ok" /\ Scan(Rec[l].from, Rec[l].n)
+               /\ LET R == { h \in Rec[l].from..(Rec[l].from + Rec[l].n - 1) : h <= top }
+                      own(i) == { h \in R : cmAt[h][i] > 0 }
+                      gridIn == { h \in R : Retains(h) }
+                      all == own(1) \cup own(2) \cup own(3) \cup gridIn
+                      keep == { h \in ({Rec[l].from - 1} \cup all) : Retains(h) }
+                      nck == [i \in 1..3 |-> BatchCk(mck[i], mret[i], Rec[l].from, own(i), all, keep, Budget, FALSE)]
+                  IN  IF R = {} THEN UNCHANGED << covered, lostOK, mck, mret >>
+                      ELSE /\ covered' = covered \cup gridIn
+                           /\ mck' = nck
+                           /\ mret' = [i \in 1..3 |-> BatchRet(mret[i], keep)]
+                           /\ lostOK' = lostOK \cup { x \in gridIn \X (1..3) : x[1] \notin nck[x[2]] }
+               /\ UNCHANGED << grid, gbase, cmAt >>
+            \/ /\ Rec[l].res = "err" /\ taint /\ KnownStale("scan refused")  \* only the C06 known finding may refuse a scan
+               /\ UNCHANGED wvars /\ UNCHANGED cvars
          /\ PostOK(Rec[l].post)
 
 TTrunc == /\ IsEvent("trunc")
@@ -109,7 +150,13 @@ TTrunc == /\ IsEvent("trunc")
                 /\ (IOEnv.CHECK_TREES = "1") => Rec[l].to \in scanned     \* TruncateLaw: the wallet settles on a scanned height
                 /\ (IOEnv.CHECK_TREES = "1" /\ Rec[l].post.chk) =>        \* ... and nothing survives above it
                       \A j \in DOMAIN Rec[l].post.trees.S.ck : Rec[l].post.trees.S.ck[j] <= Rec[l].to
-             \/ Rec[l].res = "err" /\ UNCHANGED wvars              \* refusals are legitimate (relational)
+                /\ covered' = { h \in covered : h <= Rec[l].to }
+                /\ lostOK' = { x \in lostOK : x[1] <= Rec[l].to }
+                /\ mck' = [i \in 1..3 |-> { c \in mck[i] : c <= Rec[l].to }]
+                /\ mret' = [i \in 1..3 |-> { c \in mret[i] : c <= Rec[l].to }]
+                /\ cmAt' = IF Rec[l].fork THEN [x \in 1..Min2(top, Rec[l].to) |-> cmAt[x]] ELSE cmAt
+                /\ UNCHANGED << grid, gbase >>
+             \/ Rec[l].res = "err" /\ UNCHANGED wvars /\ UNCHANGED cvars        \* refusals are legitimate (relational)
           /\ PostOK(Rec[l].post)
 
 \* a second, fresh wallet scanned the whole current chain once in height order: whenever the wallet
@@ -128,9 +175,9 @@ TFresh == /\ IsEvent("fresh")
           /\ Rec[l].balp => /\ Rec[l].bal.S = << MinedBal("S", FALSE), MinedBal("S", TRUE) >>
                             /\ Rec[l].bal.O = << MinedBal("O", FALSE), MinedBal("O", TRUE) >>
                             /\ Rec[l].bal.I = << MinedBal("I", FALSE), MinedBal("I", TRUE) >>
-          /\ UNCHANGED wvars
+          /\ UNCHANGED wvars /\ UNCHANGED cvars
 
-TraceInit == Init /\ l = 1
+TraceInit == Init /\ l = 1 /\ grid = 0 /\ gbase = 0 /\ cmAt = << >> /\ covered = {} /\ lostOK = {} /\ mck = EmptyCk /\ mret = EmptyCk
 TraceNext == TReset \/ TBlock \/ TTip \/ TScan \/ TTrunc \/ TFresh
 TraceSpec == TraceInit /\ [][TraceNext]_tvars
 
